@@ -225,27 +225,32 @@ func c14wstallOnce(m map[string]string) c14outcome {
 	}
 	base := c14query("victim", 0)
 	var wg sync.WaitGroup
-	var maxEl, nOk atomic.Int64
+	var maxEl, nOk atomic.Int64 // maxEl: the worst (elapsed − own deadline) + dl
+	mix := m["mix"] == "1"
 	for i := 0; i < n; i++ {
 		wg.Add(1)
-		go func() {
+		own := dl
+		if mix && i%4 == 0 {
+			own = 5 * dl // a few patient exchanges: the impatient ones must not wait for them
+		}
+		go func(own int) {
 			defer wg.Done()
 			q := make([]byte, size)
 			copy(q, base)
-			ctx, cancel := context.WithTimeout(context.Background(), time.Duration(dl)*time.Millisecond)
+			ctx, cancel := context.WithTimeout(context.Background(), time.Duration(own)*time.Millisecond)
 			defer cancel()
 			t0 := time.Now()
 			if c14do(up, ctx, q) {
 				nOk.Add(1)
 			}
-			el := int64(time.Since(t0))
+			el := int64(time.Since(t0)) - int64(time.Duration(own-dl)*time.Millisecond)
 			for {
 				old := maxEl.Load()
 				if el <= old || maxEl.CompareAndSwap(old, el) {
 					break
 				}
 			}
-		}()
+		}(own)
 		time.Sleep(2 * time.Millisecond)
 	}
 	done := make(chan struct{})
@@ -253,7 +258,7 @@ func c14wstallOnce(m map[string]string) c14outcome {
 	select {
 	case <-done:
 		out.el = time.Duration(maxEl.Load())
-	case <-time.After(time.Duration(dl)*time.Millisecond + c14Slack + time.Second):
+	case <-time.After(time.Duration(5*dl)*time.Millisecond + c14Slack + time.Second):
 		// somebody is still blocked: see for how long (bounded), for the report
 		select {
 		case <-done:
@@ -667,6 +672,7 @@ func c14faultsGen(r *rand.Rand, thorough bool, emit func(c, cat string)) {
 	// the write stall (fixed by b2d058a): small socket buffers in quick, the default ones in thorough
 	cases = append(cases, c14case{fmt.Sprintf("tr=tcp+pipeline fault=wstall buf=small n=24 size=65000 loop=pipeline script=fsil obs=- dl=%d", 300+r.Intn(60)), "wstall-small-tcp"})
 	cases = append(cases, c14case{fmt.Sprintf("tr=tls+pipeline fault=wstall buf=small n=24 size=65000 loop=pipeline script=fsil obs=- dl=%d", 300+r.Intn(60)), "wstall-small-tls"})
+	cases = append(cases, c14case{fmt.Sprintf("tr=tcp+pipeline fault=wstall buf=small mix=1 n=24 size=65000 loop=pipeline script=fsil obs=- dl=%d", 240+r.Intn(40)), "wstall-mixed-deadlines"})
 	if thorough {
 		cases = append(cases, c14case{"tr=tls+pipeline fault=wstall buf=default n=400 size=65000 loop=pipeline script=fsil obs=- dl=350", "wstall-default-tls"})
 		cases = append(cases, c14case{"tr=tcp+pipeline fault=wstall buf=default n=400 size=65000 loop=pipeline script=fsil obs=- dl=350", "wstall-default-tcp"})
